@@ -16,6 +16,16 @@ stages
   4. hypotheses: configurations that enable one adversary move / fault combination the clean
      configurations exclude.  TLC's counter-example (a model-only result) is concretised and run
      on the code; only a predicate that is false on the real execution is reported.
+
+Two former hypotheses/assumptions are confirmed defects and now part of the clean model (the
+specification describes the behaviour the statement asks for; the as-built behaviour is a switch that
+the Neg_*.cfg negative twins turn on and that must violate the named property):
+  * tombUnreadable (read fault kind of Begin and Restart): the tombstone store exists but open() fails.
+    Statement: "if ... the revocation store is unreadable, validation fails closed".  Directed
+    scenarios Dir_Unreadable*.cfg; driver predicate FailClosed/unreadable-tombstones.
+  * the restart window: what NewResolver publishes counts as the live trust set (observe_at: "after
+    each simulated restart").  Directed scenarios Dir_Boot*.cfg; driver predicate
+    RevokedNeverAgain/restart-window, evaluated after every restart of every behaviour.
 """
 import json
 import os
@@ -43,9 +53,16 @@ HYPOTHESES = [
     ("Hyp_H1_TagCollisionHoldDown.cfg", "TrustOnlyByRFC", "c09/TrustOnlyByRFC/tag-collision"),
     ("Hyp_H2_RevokedTagCarry.cfg", "RevokedNeverAgain", "c09/RevokedNeverAgain/revocation-ignored/revoked-tag-carry"),
     ("Hyp_H3_RevocationMaskedByCollision.cfg", "RevokedNeverAgain", "c09/RevokedNeverAgain/revocation-ignored/tag-collision-in-rrset"),
-    ("Hyp_H4_TombstonesUnreadable.cfg", "RevokedNeverAgain", "c09/RevokedNeverAgain/tombstones-unreadable"),
     ("Hyp_H5_ForgottenAfterFailClosed.cfg", "RevokedNeverAgainStrict", "c09/RevokedNeverAgainStrict/after-failclosed"),
     ("Hyp_H7_SoleRecordCorrupted.cfg", "RevokedNeverAgain", "c09/RevokedNeverAgain/sole-record-corrupted"),
+]
+
+
+# negative twins of the clean model: the as-built switch is on, the named property must fail (model only)
+NEGATIVES = [
+    ("Neg_UnreadableContinues.cfg", "RevokedNeverAgain"),      # open error -> run goes on with no tombstones
+    ("Neg_UnreadableContinuesFC.cfg", "UnreadableAborts"),     # ... seen as "the run did not stop at the read"
+    ("Neg_BootTrustsConfig.cfg", "RevokedNeverAgain"),         # NewResolver trusts cfg.RootKeys unfiltered
 ]
 
 
@@ -104,7 +121,9 @@ def behaviour_to_steps(states, model, fail_modes, complete=False):
             cur = {"op": "run", "d": ev["d"], "rf": ev["rf"], "fetch": "none", "z": None, "tombFail": False,
                    "stateFail": False, "crash": -1, "_atFetch": None, "_cand": None, "_z": None}
         elif a == "Restart":
-            steps.append({"op": "restart"})
+            # what NewResolver publishes (BootCandidate; nothing if the store cannot be read) is
+            # compared as drift; the verdict at a restart is RevokedNeverAgain only
+            steps.append({"op": "restart", "rf": ev.get("rf", "none"), "exp": {"trusted": sorted(st["rootKeys"])}})
             continue
         elif cur is None:
             continue
@@ -182,12 +201,19 @@ def suite_counters(res, name):
 
 WITNESS_COUNTERS = ["refreshes_full_auth", "refreshes_unauthenticated", "refreshes_revocation_only", "earned_trusted",
                     "quiescent_with_recorded_revocation", "missing_kept", "removed_after_holddown", "reappeared",
-                    "crashes", "failclosed_corrupt_tombstones", "failclosed_double_write_failure"]
+                    "crashes", "failclosed_corrupt_tombstones", "failclosed_double_write_failure",
+                    "failclosed_unreadable_tombstones", "restarts_with_recorded_revocation"]
 
-DIRECTED = ["Pend29Present", "Promote31", "PendAbort", "PendReadd", "Missing89Kept", "Missing91Gone", "Reappear", "RevokeFull",
+DIRECTED = ["Pend29Present", "Promote31", "PendAbort", "PendReadd", "Missing89Kept", "Missing91Gone", "MissingAfterLong", "Reappear", "RevokeFull",
             "RevokeOnly", "RevokeOnlyBait", "RevokeOnlyPend", "DoubleFail", "DoubleFailNoRev", "MarkerMigrated",
             "StaleConfig", "CrashBetween", "CrashBeforeWrites", "TombCorrupt", "StateCorrupt", "UnauthBait",
-            "RevokeNoSelfSig", "CollidingRevoke"]
+            "RevokeNoSelfSig", "CollidingRevoke",
+            # the tombstone store exists but cannot be opened (run / start-up run / nothing recorded /
+            # pending key / the refresh after it)
+            "UnreadableRevoked", "UnreadableBoot", "UnreadableEmpty", "UnreadablePend", "UnreadableRecovers",
+            # what NewResolver trusts (tombstone / marker only / crash between the writes / store
+            # unreadable while starting / an earned key)
+            "BootRevoked", "BootMarkerOnly", "BootAfterCrash", "BootUnreadable", "BootEarned"]
 
 
 def tlc_many(ctx, cfgs, tag, par=6):
@@ -296,8 +322,8 @@ def run(ctx, replay_path):
                        "real keys/signatures/files; evaluations = quiescent points at which all C09 clauses were "
                        "evaluated; distinct = distinct run histories")
     ctx.assumptions += [
-        "rootKeys is observed after every AutoTA run, when the DNSKEY query reaches the scripted root, and after restarts "
-        "(not inside NewResolver..first AutoTA, where cfg.RootKeys is live by construction)",
+        "rootKeys is observed after every AutoTA run, when the DNSKEY query reaches the scripted root, and right after "
+        "NewResolver (what it publishes is live until the first AutoTA run; RevokedNeverAgain is judged there too)",
         "a crash is emulated by rebuilding the directory from the inotify-observed replacement sequence; torn writes "
         "below rename(2) are out of scope",
         "days pass by moving every FirstSeen in the gob files into the past",
@@ -331,7 +357,8 @@ def run(ctx, replay_path):
             ctx.tlc(MOD, SPEC, "MC_Thorough.cfg", workers=8, timeout=1500, heap="16g")
             ctx.tlc(MOD, SPEC, "MC_Deep2.cfg", workers=8, timeout=1500, heap="16g")
             wit = ["W_NeverEarned", "W_NeverRevAcc", "W_NeverRevOnly", "W_NeverFailClosedW", "W_NeverMissing",
-                   "W_NeverRemoved", "W_NeverReappear", "W_NeverMarkerKept", "W_NeverTombUsed"]
+                   "W_NeverRemoved", "W_NeverReappear", "W_NeverMarkerKept", "W_NeverTombUsed",
+                   "W_NeverUnreadable", "W_NeverBootFiltered", "W_NeverBootClosed"]
             for cfg, r in tlc_many(ctx, ["Wit_%s.cfg" % w for w in wit], "witness", par=3):
                 if r.violated != cfg[4:-4]:
                     raise vf.MachineryError("vacuity: witness %s is not reachable in the quick configuration" % cfg)
@@ -342,7 +369,7 @@ def run(ctx, replay_path):
     if thorough:
         sims.append(("Sim_CleanAB.cfg", "Trace_CleanAB.cfg", "cleanAB", 1200))
     fail_modes = ["empty", "servfail"] if not thorough else ["empty", "servfail", "empty", "servfail", "drop"]
-    small = ["Dir_%s.cfg" % n for n in DIRECTED] + ([h[0] for h in HYPOTHESES] if hyp else [])
+    small = ["Dir_%s.cfg" % n for n in DIRECTED] + [n[0] for n in NEGATIVES] + ([h[0] for h in HYPOTHESES] if hyp else [])
     pool = ThreadPoolExecutor(3)
     f_mc = pool.submit(model_checking)
     f_small = pool.submit(lambda: dict(tlc_many(ctx, small, "scenario", par=5)))
@@ -362,7 +389,19 @@ def run(ctx, replay_path):
             pool.shutdown()
 
 
+def negative_twins(ctx, runs):
+    for cfg, prop in NEGATIVES:
+        r = runs[cfg]
+        if r.violated != prop:
+            raise vf.MachineryError("negative twin %s: TLC ended with %r, expected a counter-example to %s "
+                                    "(the property is vacuous for this defect)\n%s" % (
+                                        cfg, r.violated, prop, "\n".join(r.out.splitlines()[-15:])))
+    ctx.cov["negative_twins"] = {c: p for c, p in NEGATIVES}
+    ctx.log("negative twins: %s" % ", ".join("%s violates %s" % (c[:-4], p) for c, p in NEGATIVES))
+
+
 def stages_3_4(ctx, thorough, hyp, runs, sims, sim_suites):
+    negative_twins(ctx, runs)
     suites = directed_suites(ctx, runs)
     ndirected = len(suites)
     suites += sim_suites
